@@ -30,7 +30,7 @@ func pick(r *rand.Rand, xs ...string) string { return xs[r.Intn(len(xs))] }
 
 // nearMisses returns values close to s that must NOT be treated as equal to it.
 func nearMisses(s string) []string {
-	cand := []string{s + "/", strings.ToUpper(s), " " + s, s + " ", s + "\n", "x" + s, strings.ToLower(s) + "#"}
+	cand := []string{s + "/", strings.ToUpper(s), " " + s, s + " ", s + "\n", "x" + s, strings.ToLower(s) + "#", s + "?tenant=other", s + "#frag", s + "?", strings.Replace(s, "https://", "HTTPS://", 1), strings.Replace(s, "https://", "https://user@", 1), strings.Replace(s, ".example.com", ".example.com:443", 1), strings.Replace(s, ".example.com", ".EXAMPLE.com", 1)}
 	if len(s) > 0 {
 		cand = append(cand, s[:len(s)-1], s[1:])
 	}
@@ -481,7 +481,7 @@ func runLogoutStruct(c *Ctx, n int) {
 			sp.IdentityProviderIssuer = ""
 		}
 		isResp := r.Intn(2) == 0
-		dest := pick(r, sloURL, sloURL, "", acsURL, sloURL+"/", strings.ToUpper(sloURL))
+		dest := pick(r, append([]string{sloURL, sloURL, sloURL, "", "", acsURL}, nearMisses(sloURL)...)...)
 		ver := pick(r, "2.0", "2.0", "2.0", "", "1.1", "2.00")
 		var iss *types.Issuer
 		issKind := r.Intn(5)
